@@ -30,6 +30,8 @@ Viol(e) ==
     [] e.ev = "create" ->
          IF e.m \notin Mods \/ node # "building" THEN "harness: create not applicable"
          ELSE IF created[e.m] # "no" THEN "module created twice"
+         ELSE IF kindof[e.m] = "noclass" /\ e.out = "accepted" THEN "module of a missing class accepted"
+         ELSE IF kindof[e.m] = "noclass" THEN ""
          ELSE LET v == ModViol(cfgof[e.m], e) IN
               IF v # "" THEN v
               ELSE IF e.out = "accepted" /\ e.orig # (origin[e.m] > 1) THEN "original_id of merged modules"
